@@ -93,7 +93,9 @@ func ParamEdges(w *chain.World) map[string]func() []sdk.Msg {
 	out["perpetual.safety_zero"] = perp(func(p *perptypes.Params) { p.SafetyFactor = d("0") })
 	out["perpetual.safety_high"] = perp(func(p *perptypes.Params) { p.SafetyFactor = d("3") })
 	out["perpetual.leverage_max_0"] = perp(func(p *perptypes.Params) { p.LeverageMax = d("0") })
-	out["perpetual.take_profit_custody_liabilities"] = perp(func(p *perptypes.Params) { p.EnableTakeProfitCustodyLiabilities = !p.EnableTakeProfitCustodyLiabilities })
+	out["perpetual.take_profit_custody_liabilities"] = perp(func(p *perptypes.Params) {
+		p.EnableTakeProfitCustodyLiabilities = !p.EnableTakeProfitCustodyLiabilities
+	})
 	llp := func(f func(p *lptypes.Params)) func() []sdk.Msg {
 		return func() []sdk.Msg {
 			p := a.LeveragelpKeeper.GetParams(w.ReadCtx())
@@ -105,7 +107,9 @@ func ParamEdges(w *chain.World) map[string]func() []sdk.Msg {
 	out["leveragelp.number_per_block_1"] = llp(func(p *lptypes.Params) { p.NumberPerBlock = 1 })
 	out["leveragelp.safety_tiny"] = llp(func(p *lptypes.Params) { p.SafetyFactor = d("0.000000000000000001") })
 	out["leveragelp.safety_high"] = llp(func(p *lptypes.Params) { p.SafetyFactor = d("5") })
-	out["leveragelp.epoch_1_threshold_tiny"] = llp(func(p *lptypes.Params) { p.EpochLength, p.PoolOpenThreshold, p.LeverageMax = 1, d("0.000000000000000001"), d("1.000000000000000001") })
+	out["leveragelp.epoch_1_threshold_tiny"] = llp(func(p *lptypes.Params) {
+		p.EpochLength, p.PoolOpenThreshold, p.LeverageMax = 1, d("0.000000000000000001"), d("1.000000000000000001")
+	})
 	ss := func(f func(p *sstypes.Params)) func() []sdk.Msg {
 		return func() []sdk.Msg {
 			p := a.StablestakeKeeper.GetParams(w.ReadCtx())
@@ -116,7 +120,9 @@ func ParamEdges(w *chain.World) map[string]func() []sdk.Msg {
 	out["stablestake.rates_zero"] = ss(func(p *sstypes.Params) {
 		p.InterestRate, p.InterestRateMax, p.InterestRateMin, p.InterestRateIncrease, p.InterestRateDecrease, p.HealthGainFactor = d("0"), d("0"), d("0"), d("0"), d("0"), d("0")
 	})
-	out["stablestake.rates_huge"] = ss(func(p *sstypes.Params) { p.InterestRate, p.InterestRateMax, p.InterestRateMin, p.InterestRateIncrease = d("500"), d("500"), d("500"), d("100") })
+	out["stablestake.rates_huge"] = ss(func(p *sstypes.Params) {
+		p.InterestRate, p.InterestRateMax, p.InterestRateMin, p.InterestRateIncrease = d("500"), d("500"), d("500"), d("100")
+	})
 	out["stablestake.epoch_0"] = ss(func(p *sstypes.Params) { p.EpochLength = 0 })
 	out["stablestake.epoch_1"] = ss(func(p *sstypes.Params) { p.EpochLength = 1 })
 	out["stablestake.max_leverage_ratio_0"] = ss(func(p *sstypes.Params) { p.MaxLeverageRatio = d("0") })
@@ -138,7 +144,9 @@ func ParamEdges(w *chain.World) map[string]func() []sdk.Msg {
 			return []sdk.Msg{&estakingtypes.MsgUpdateParams{Authority: gov, Params: p}}
 		}
 	}
-	out["estaking.aprs_zero"] = es(func(p *estakingtypes.Params) { p.MaxEdenRewardAprStakers, p.EdenBoostApr, p.ProviderStakingRewardsPortion = d("0"), d("0"), d("0") })
+	out["estaking.aprs_zero"] = es(func(p *estakingtypes.Params) {
+		p.MaxEdenRewardAprStakers, p.EdenBoostApr, p.ProviderStakingRewardsPortion = d("0"), d("0"), d("0")
+	})
 	out["estaking.provider_portion_1"] = es(func(p *estakingtypes.Params) { p.ProviderStakingRewardsPortion = d("1") })
 	out["estaking.provider_portion_2"] = es(func(p *estakingtypes.Params) { p.ProviderStakingRewardsPortion = d("2") })
 	out["estaking.boost_huge"] = es(func(p *estakingtypes.Params) { p.EdenBoostApr, p.MaxEdenRewardAprStakers = d("1000000"), d("1000000") })
@@ -149,7 +157,9 @@ func ParamEdges(w *chain.World) map[string]func() []sdk.Msg {
 			return []sdk.Msg{&tstypes.MsgUpdateParams{Authority: gov, Params: &p}}
 		}
 	}
-	out["tradeshield.zero"] = ts(func(p *tstypes.Params) { p.RewardPercentage, p.MarginError, p.MinimumDeposit, p.LimitProcessOrder = d("0"), d("0"), math.ZeroInt(), 0 })
+	out["tradeshield.zero"] = ts(func(p *tstypes.Params) {
+		p.RewardPercentage, p.MarginError, p.MinimumDeposit, p.LimitProcessOrder = d("0"), d("0"), math.ZeroInt(), 0
+	})
 	out["parameter.blocks_per_year_1"] = func() []sdk.Msg {
 		return []sdk.Msg{&parametertypes.MsgUpdateTotalBlocksPerYear{Creator: gov, TotalBlocksPerYear: 1}}
 	}
